@@ -173,8 +173,8 @@ func spdScalars(A *M, normS float64, logdet, det, cond float64) *vk.Failure {
 		if !(cond <= kinf*(1+relRef)) {
 			return failf("cond-upper", "n=%d Cond=%g exceeds kappa_1=%g", n, cond, kinf)
 		}
-		if !(cond >= kinf*(1-relRef)/estFactor) {
-			return failf("cond-lower", "n=%d Cond=%g below kappa_1/%g, kappa_1=%g", n, cond, estFactor, kinf)
+		if f := condLower("cond-lower", cond, normInf(A), inv, kinf); f != nil {
+			return f
 		}
 	}
 	return nil
@@ -490,8 +490,11 @@ func checkChol(c cholCase) *vk.Failure {
 					relRef := 1e3 * float64(n) * eps * kinf
 					if relRef < 0.1 {
 						cond := ch.Cond()
-						if !(cond <= kinf*(1+relRef)) || !(cond >= kinf*(1-relRef)/estFactor) {
+						if !(cond <= kinf*(1+relRef)) {
 							return failf("piv-cond", "n=%d Cond=%g kappa_1=%g", n, cond, kinf)
+						}
+						if f := condLower("piv-cond", cond, normInf(A), permSym(inv, piv), kinf); f != nil { // Pocon sees P'AP
+							return f
 						}
 					}
 				}
